@@ -345,12 +345,64 @@ def crosscheck(ctx):
     c10.coq_crosscheck(ctx, "c08_cases", "Gen.TilingGen Model.Lattice Model.Tiling Model.Bloch", ex)
 
 
+def helpers_sweep(ctx, count, seed):
+    """S only, cheap: analyse_hk / gap_over_phase_space against a recomputation from eigvalsh on many TILED random cells used as
+    unit cells (several bands overlap zero there: the level nearest to zero need not be the top of the lower half)"""
+    res = ctx.res
+    rng = np.random.default_rng([seed, 88])
+    st = res.extra.setdefault("helpers_sweep", {"cells": 0, "nearest_level_is_not_top_of_lower_half": 0})
+    for i in range(count):
+        cell = {"family": "tiled", "base": {"family": "voronoi", "style": gen.POINT_STYLES[i % 3], "n": int(rng.integers(2, 6)),
+                                            "seed": int(rng.integers(0, 2**31)), "shift": True},
+                "nxy": [[2, 3], [3, 2], [2, 2], [3, 3], [1, 3]][i % 5]}
+        case = {"cell": cell, "colmode": "random", "seed": int(rng.integers(0, 2**31)), "sizes": [], "gauge": ["random", "ones"][i % 2], "helpers_only": True}
+        s = setup(case)
+        if s is None:
+            continue
+        P, E, C, u, J, col = s
+        n = len(P)
+        if n < 2 or n > 120:
+            continue
+        lat = Lattice(P.copy(), E.copy(), C.copy())
+        Hk_ = k_hamiltonian_generator(lat, col, u, J)
+        st["cells"] += 1
+        res.count("helpers-sweep/tiled", digest([P.tolist(), E.tolist(), C.tolist(), u.tolist(), J.tolist(), col.tolist()]))
+        for knum in (3, [3, 2]):
+            kx, ky = (knum, knum) if isinstance(knum, int) else knum
+            grid = np.array(allowed_momenta(kx, ky)).reshape(-1, 2)
+            spectra = [np.linalg.eigvalsh(Hk_(k)) for k in grid]
+            low = np.array([sp[: n // 2] for sp in spectra])
+            want_gap = float(np.min(np.abs(low)))
+            if abs(float(np.min(np.abs(low[:, -1]))) - want_gap) > 1e-9:
+                st["nearest_level_is_not_top_of_lower_half"] += 1
+            try:
+                gs, gap = analyse_hk(Hk_, knum)
+                gaps = gap_over_phase_space(Hk_, kx) if kx == ky else None
+            except Exception as e:
+                res.violation("analyse_hk-raises", f"tiled cell n={n}: analyse_hk(k_num={knum}) raised {type(e).__name__}: {e}", case)
+                continue
+            if abs(gap - want_gap) > 1e-9:
+                res.violation("analyse-gap", f"tiled random cell (n={n}, {cell['nxy']} copies of a {cell['base']['n']}-seed Voronoi cell), k_num={knum}: gap_size {gap} is not min|E| = {want_gap} "
+                              f"over the lower halves on the grid", case)
+            if abs(gs - 2 * np.sum(low) / (len(grid) * n)) > 1e-9:
+                res.violation("analyse-mean", f"tiled random cell (n={n}), k_num={knum}: ground_state_per_site {gs} is not the mean of the lower half", case)
+            if gaps is not None:
+                # gap_over_phase_space samples its own grid: compare value sets only through the helper's own k values
+                g2, kv = gap_over_phase_space(Hk_, kx, return_k_values=True)
+                g2, kv = np.asarray(g2), np.asarray(kv)
+                if kv.shape == g2.shape + (2,):
+                    want = np.array([np.min(np.abs(np.linalg.eigvalsh(Hk_(k)))) for k in kv.reshape(-1, 2)])
+                    if np.max(np.abs(g2.ravel() - want)) > 1e-9:
+                        res.violation("gap-grid", f"tiled random cell (n={n}): gap_over_phase_space is not the per-momentum min|E|", case)
+
+
 def run(ctx):
     ctx.res.rule = ("unit cells: regular tilings at size 1 and 2 (4-site honeycomb cell, square 1x1 with self-loops, multi_graph), Voronoi cells 3..30 seeds "
                     "(six point styles), tiled random cells; each with random J (dyadic), random or all-ones u, random colouring or None; tilings 1x1..4x4 "
                     "(all 16, capped at 700 sites); non-trivial = distinct (cell, u, J, colouring)")
     grid_check(ctx)
     evaluate(ctx, cases_for(ctx.tier, ctx.seed), "K(bloch)", 500 if ctx.tier == "quick" else 1500)
+    helpers_sweep(ctx, 400 if ctx.tier == "quick" else 3000, ctx.seed)
     if ctx.tier != "quick":
         crosscheck(ctx)
 
@@ -361,7 +413,9 @@ def search(ctx):
 
 def replay(ctx, payload):
     case = payload["case"]
-    if case.get("kind") == "kgrid":
+    if case.get("helpers_only"):
+        helpers_sweep(ctx, 400, ctx.seed)
+    elif case.get("kind") == "kgrid":
         grid_check(ctx)
     elif case.get("kind") == "crosscheck":
         crosscheck(ctx)
